@@ -13,7 +13,7 @@ use std::collections::BTreeSet;
 pub const DEF: PropDef = PropDef {
     id: "C10",
     level: "exploration",
-    rule: "all programs that build a dictionary from every ordered selection of k=2 keys, of k=3 keys (quick: out of the first 7 keys; thorough: all, and k=4) out of {\"p\",\"q\",\"r\",true,null,mysterious,\"true\",\"null\",\"9\",\"10\",\"1a\",\"\"} and then apply one of 47 operations (join with/without delimiter, join with a non-string value at each key position, print, compare, copy, every erroring statement whose message renders the array, the array as delimiter / radix / key / callee / element of another array), plus a parse/lint/runtime-error corpus; plus the confusable-keys family (pairs / triples of keys that truncation at 7..1000 characters, case folding, trimming, normalisation, numeric reading or escaping would merge, every insertion order); plus histories (all ordered pairs of 52 programs run one after the other on one thread: the second must behave as it does alone); each program is run under hash seeds 0,1,2,... in fresh threads until every one of the k! iteration orders of its dictionary has been observed (cap 64 / 600 seeds); stdout, result, error text, parse errors and lint reports must be byte-identical across all runs; non-trivial = at least two different iteration orders were actually exercised for the program; distinct = distinct program text",
+    rule: "all programs that build a dictionary from every ordered selection of k=2 keys, of k=3 keys (quick: out of the first 7 keys; thorough: all, and k=4) out of {\"p\",\"q\",\"r\",true,null,mysterious,\"true\",\"null\",\"9\",\"10\",\"1a\",\"\"} and then apply one of 47 operations (join with/without delimiter, join with a non-string value at each key position, print, compare, copy, every erroring statement whose message renders the array, the array as delimiter / radix / key / callee / element of another array), plus a parse/lint/runtime-error corpus; plus the confusable-keys family (pairs / triples of keys that truncation at 7..1000 characters, case folding, trimming, normalisation, numeric reading or escaping would merge, every insertion order); plus histories (all ordered pairs of 70 programs (incl. tiny programs whose words are aligned but differ in being keywords) copied into one reused buffer and run one after the other on one thread: the second must behave as it does alone); each program is run under hash seeds 0,1,2,... in fresh threads until every one of the k! iteration orders of its dictionary has been observed (cap 64 / 600 seeds); stdout, result, error text, parse errors and lint reports must be byte-identical across all runs; non-trivial = at least two different iteration orders were actually exercised for the program; distinct = distinct program text",
     assumptions: &[
         "seed control relies on std resolving getrandom through a weak symbol; ./check selftest fails loudly if the same seed stops giving the same order or different seeds stop giving different orders",
         "a dictionary whose orders were not all reached within the seed cap is reported in the evidence as partially covered",
@@ -176,6 +176,10 @@ fn build(tier: Tier) -> Box<dyn Check> {
     for s in ["say 1\nelse\n", "put 1 into\n", "say x\n", "put 5 into x\nput 5 into x\nsay x at 0\n", "let x at \"a\" be 1\nlet x at \"b\" be 2\njoin x\n", "fun takes k\ngive back k\n\nsay fun taking 1\n", "fun takes k\ngive back k plus 1\n\nsay fun taking 1\n", "put 1 into fun\nsay fun taking 1\n", "listen to x\nsay x\n", "say it\n", "put 2 into x\nsay it\n", ""] {
         hset.push(s.to_string());
     }
+    // tiny programs whose words sit at the same offsets and have the same lengths but differ in being keywords
+    for s in ["break\n", "zebra\n", "zebra is 5\nsay zebra\n", "listen\n", "little\n", "little is 5\nsay little\n", "it\n", "xy\n", "xy is 5\nsay xy\n", "say\n", "sky\n", "say it\n", "say zebra\n", "say break\n", "put zebra into listen\n", "put break into little\n", "if it\nsay xy\n\n", "at xy\nsay it\n\n"] {
+        hset.push(s.to_string());
+    }
     let hs: Space<usize> = Space::of((0..hset.len()).collect());
     let hset = std::rc::Rc::new(hset);
     let h2 = hset.clone();
@@ -199,11 +203,24 @@ fn run_under_seed(text: String, seed: u64) -> Result<(String, String), String> {
 
 /// the texts are parsed, linted and executed one after the other on ONE fresh thread
 fn run_history_under_seed(texts: Vec<String>, seed: u64) -> Result<Vec<(String, String)>, String> {
-    let r = with_seed(seed, move || texts.into_iter().map(run_one_text).collect::<Vec<_>>());
+    // every text is copied into the same buffer first, so that consecutive programs sit at the same
+    // address (a read-eval loop reusing its line buffer): anything remembered by address or offset goes stale
+    let r = with_seed(seed, move || {
+        let cap = texts.iter().map(|t| t.len()).max().unwrap_or(0) + 1;
+        let mut buf = String::with_capacity(cap);
+        texts
+            .iter()
+            .map(|t| {
+                buf.clear();
+                buf.push_str(t);
+                run_one_text(&buf)
+            })
+            .collect::<Vec<_>>()
+    });
     r.map_err(|_| crate::engine::worker::take_panic())
 }
 
-fn run_one_text(text: String) -> (String, String) {
+fn run_one_text(text: &str) -> (String, String) {
     {
         use rrss::analysis::visit::VisitProgram;
         use rrss::exec::environment::Environment;
@@ -211,7 +228,7 @@ fn run_one_text(text: String) -> (String, String) {
         use rrss::frontend::ast::{SimpleIdentifier, VariableName};
         let mut obs = String::new();
         let mut order = String::new();
-        match rrss::frontend::parser::parse(&text) {
+        match rrss::frontend::parser::parse(text) {
             Err(e) => obs.push_str(&format!("parse-error:{}", e)),
             Ok(p) => {
                 let lint = rrss::linter::standard_linter().run(&p);
